@@ -374,6 +374,7 @@ func (e *env) check(q query, pgs []paging, wideBlocks uint64) bool {
 	full := paging{Chunk: uint64(len(want)) + 1000, Limit: -1}
 	res := runDirect(bc, q, full, pre, 4)
 	e.t.queried(from, to)
+	e.t.note("query %s -> %d events expected", q.String(), len(want))
 	e.r.Eval(1)
 	e.r.Count("queries", 1)
 	e.r.Count("events_expected", len(want))
